@@ -1,11 +1,19 @@
 """Budgets per check and tier (TensorFlow-free, read by the parent process).
-n = cases per shard; deadline = soft per-shard deadline in seconds (generous:
-the case count is the real budget, the deadline only guards a loaded machine)."""
 
-def _b(qs, qn, ts, tn, qd=900, td=3600):
-  return {"quick": {"shards": qs, "n": qn, "deadline": qd},
-          "thorough": {"shards": ts, "n": tn, "deadline": td}}
+Each check has a side-car file tflv/checks/cXX.json:
+  {"budgets": {"quick": {"shards": S, "n": N, "deadline": sec}, "thorough": {...}},
+   "manifest": {"text": ..., "note": ..., "technique": ...}}
+n = cases per shard; deadline = soft per-shard deadline (generous: the case
+count is the real budget, the deadline only guards a loaded machine)."""
+import glob
+import json
+import os
 
-CHECKS = {
-    "C01": _b(8, 120, 32, 1500),
-}
+_DIR = os.path.join(os.path.dirname(os.path.abspath(__file__)), "checks")
+CHECKS = {}
+META = {}
+for _f in sorted(glob.glob(os.path.join(_DIR, "c[0-9][0-9].json"))):
+  _d = json.load(open(_f))
+  _id = os.path.basename(_f)[:-5].upper()
+  CHECKS[_id] = _d["budgets"]
+  META[_id] = _d.get("manifest", {})
